@@ -302,6 +302,20 @@ def extra_checks(G, A, ctx):
         except Exception as e:
             ctx.property_failure(None, f"batched flip site ({est_name}) raised {type(e).__name__}: {str(e)[:150]}", {"kind": "batched-site", "estimator": est_name})
         ctx.case(nontrivial_key=("batched", est_name))
+    # batched reparameterised site (scalar loc, vector scale): one independent noise per coordinate
+    def fl(th):
+        x = A.normal_reparam(th, jnp.array([1.0, 2.0]) * th)
+        return x[0] * x[1] + (x[0] - x[1]) ** 2
+    n_keys = 8000
+    ds = jax.jit(jax.vmap(lambda k: G.seed(lambda: A.expectation(fl).jvp_estimate(A.Dual(jnp.float32(0.75), jnp.float32(1.0))))(k)))(jr.split(jr.key(21), n_keys))
+    v, t = np.asarray(ds.primal, dtype=np.float64), np.asarray(ds.tangent, dtype=np.float64)
+    exl = lambda th: th * th + (th * th + 4 * th * th)        # E[x0 x1] = th^2 (independent), E[(x0-x1)^2] = th^2 + 4 th^2
+    for what, arr, want in (("value", v, float(exl(0.75))), ("tangent", t, float(jax.grad(exl)(0.75)))):
+        se = arr.std(ddof=1) / math.sqrt(n_keys)
+        if abs(arr.mean() - want) > 5.5 * se + 1e-3:
+            ctx.property_failure(None, f"batched normal_reparam site (scalar loc, vector scale): mean {what} {arr.mean():.4f} +- {se:.4f} != exact {want:.4f} "
+                                 "(lanes must get independent noise)", {"kind": "batched-reparam", "what": what})
+    ctx.case(nontrivial_key="batched-reparam")
     # reparam: pathwise derivative for the noise actually drawn; seed / jit agreement
     def fr(th):
         x = A.normal_reparam(th, jnp.exp(th))
